@@ -44,7 +44,7 @@ def chunks(tier):
     b = bounds(tier)
     out = [("A", k) for k in range(26)]
     out += [("P", k) for k in range(0, 118, 8)]
-    out += [("G",), ("D",)]
+    out += [("G",), ("D",), ("N",)]
     N = b["N"]
     for a in range(1, N + 1):
         J = _J(a)
@@ -195,6 +195,15 @@ def run_chunk(chunk, tier):
                     res.nontrivial += 1
                     _check_accept(res, s, ref, dict(layer="D", s=s, ref={str(k): v for k, v in ref.items()}))
         res.sample(dict(layer="D", example="{[((H2)2)2]2}2"))
+    elif kind == "N":
+        for st in F.numeral_states():
+            s = F.string_of(st)
+            ref = F.composition_of(st)
+            res.states += 1
+            res.transitions += F.cost_of(st)
+            res.nontrivial += 1
+            _check_accept(res, s, ref, dict(layer="N", s=s, ref={str(k): v for k, v in ref.items()}))
+        res.sample(dict(layer="N", example="(HO2)0.125"))
     elif kind == "B":
         _, N, a, j, J = chunk
         seen = set()
